@@ -101,6 +101,10 @@ def relex(F, flat):
 def analyse(flat):
     """token sequence -> (paragraphs [[(key, [line texts])]], comment attachment [(comment, next key)], indents, blank counts, error)"""
     wf = deb822_parse.wellformed_dfa()
+    # an indented "#" line inside a multi-line value (a commented-out list item): a comment that belongs to that field
+    wf.trans["I"]["COMMENT"] = ("IC", "cont-comment")
+    wf.trans["IC"] = {"NEWLINE": ("L", "field-nl")}
+    wf.accepting.add("IC")
     q = wf.start
     paras, cur = [], []
     comments, pending_comments = [], []
@@ -125,6 +129,8 @@ def analyse(flat):
             pending_comments = []
         elif role == "value":
             cur[-1][1].append(symstr.show(t).strip())
+        elif role == "cont-comment":
+            comments.append((symstr.show(t), "inside the value of %s" % cur[-1][0]))
         elif role in ("para-comment", "top-comment"):
             pending_comments.append(symstr.show(t))
         elif role in ("blank-sep", "blank"):
@@ -170,6 +176,13 @@ LAYOUTS["a field without value between other fields, one followed by a comment"]
     F_("T", ["t"]),
     {"type": "field", "key": "G", "lines": [], "tokens": [("KEY", symstr.lit("G")), ("COLON", symstr.lit(":")), ("WHITESPACE", symstr.lit(" ")), ("NEWLINE", symstr.lit("\n"))]},
     Cm("after-g"), F_("U", ["u"])]
+HC = symstr.mk([("lit", "#"), ("atom", "hc", "line")])
+LAYOUTS["a value whose last continuation line is an indented comment line"] = [
+    F_("S", ["s"]),
+    {"type": "field", "key": "D", "lines": [A("d1")],
+     "tokens": [("KEY", symstr.lit("D")), ("COLON", symstr.lit(":")), ("WHITESPACE", symstr.lit(" ")), ("VALUE", A("d1")), ("NEWLINE", symstr.lit("\n")),
+                ("INDENT", symstr.lit(" ")), ("COMMENT", HC), ("NEWLINE", symstr.lit("\n"))]},
+    F_("T", ["t"])]
 SETTINGS = []
 for ind in ("s1", "s4", "fnl"):
     for iel in (False, True):
